@@ -34,7 +34,7 @@ GATES = ("reuse.cached", "reuse.memo", "reuse.retain", "worlds.scaled", "worlds.
 
 
 def generate(rng, seed, index, tier):
-    fam = str(rng.choice(["qp", "nlp", "degenerate", "domain"], p=[0.5, 0.35, 0.1, 0.05]))
+    fam = str(rng.choice(["qp", "nlp", "degenerate", "domain", "saddle"], p=[0.45, 0.33, 0.09, 0.05, 0.08]))
     spec, x0, y0 = gen.gen_problem(rng, fam)
     kw = gen.gen_params(rng, spec, x0, y0, p_knob=0.45, reporting=False, scaling=False, numeric=0.15)
     # aliasing bugs live in one formulation each: sweep step solvers and Newton types uniformly
@@ -64,6 +64,9 @@ def generate(rng, seed, index, tier):
         kw["scaling_type"] = st
         if st == "Custom":
             kw["scaling"] = {"var": rng.integers(-4, 5, size=spec["n"]).tolist(), "cons": rng.integers(-4, 5, size=spec["m"]).tolist(), "obj": int(rng.integers(-3, 4))}
+            if rng.random() < 0.2:
+                kw["scaling"]["cons"] = [0] * spec["m"]  # variables-only scaling: the rows pass through unscaled
+                kw["scaling"]["obj"] = 0
         else:
             kw["scaling_primal"] = "x0"
             kw["scaling_dual"] = "y0"
